@@ -74,6 +74,11 @@ func render(v ssa.Value, depth int) string {
 	if curResolver != nil {
 		v = curResolver(v)
 	}
+	// a session (or its handler) is a singleton in every function of the library: however it is reached — receiver, captured
+	// variable, field of a helper object — it renders under the pinned receiver name
+	if n := singletonName(v); n != "" {
+		return n
+	}
 	switch x := v.(type) {
 	case *ssa.Const:
 		if x.Value == nil {
@@ -366,6 +371,20 @@ type Path struct {
 	// Sub is set on paths of EnumPathsX: helper parameters → arguments, results of expanded calls → returned values
 	Sub      map[ssa.Value]ssa.Value
 	expanded map[*ssa.Call]bool
+	// Seq, on paths of EnumPathsX, is the path's instructions in execution order (a helper's instructions follow its call)
+	Seq []ssa.Instruction
+}
+
+// InstrSeq returns the instructions of the path in execution order.
+func (p *Path) InstrSeq() []ssa.Instruction {
+	if p.Seq != nil {
+		return p.Seq
+	}
+	var out []ssa.Instruction
+	for _, b := range p.Blocks {
+		out = append(out, b.Instrs...)
+	}
+	return out
 }
 
 func (p *Path) Has(atom string) bool {
@@ -960,6 +979,12 @@ func expandPath(fn *ssa.Function, p *Path, max, depth int, stack map[*ssa.Functi
 			}
 		}
 		np := &Path{Return: p.Return, Panic: p.Panic, Loop: p.Loop, Sub: sub, expanded: map[*ssa.Call]bool{call: true}}
+		for _, in := range p.InstrSeq() {
+			np.Seq = append(np.Seq, in)
+			if in == ssa.Instruction(call) {
+				np.Seq = append(np.Seq, q.InstrSeq()...)
+			}
+		}
 		for c := range p.expanded {
 			np.expanded[c] = true
 		}
@@ -1084,6 +1109,28 @@ func pinnedParam(x *ssa.Parameter) string {
 		if p == x && i < len(list) {
 			return list[i]
 		}
+	}
+	return ""
+}
+
+// singletonName: v has type *session.Session or *simplefixgo.DefaultHandler and is not the creation of a new object.
+func singletonName(v ssa.Value) string {
+	switch v.(type) {
+	case *ssa.Alloc, *ssa.Call, *ssa.Extract, *ssa.Const, *ssa.MakeInterface, *ssa.Phi:
+		return ""
+	}
+	pt, ok := v.Type().Underlying().(*types.Pointer)
+	if !ok {
+		return ""
+	}
+	n, ok := pt.Elem().(*types.Named)
+	if !ok || n.Obj().Pkg() == nil {
+		return ""
+	}
+	key := n.Obj().Pkg().Path() + "." + PinnedTypeName(n.Obj().Pkg(), n.Obj().Name())
+	switch key {
+	case "github.com/b2broker/simplefix-go/session.Session", "github.com/b2broker/simplefix-go.DefaultHandler":
+		return KnownRecv[key]
 	}
 	return ""
 }
